@@ -533,6 +533,10 @@ func c12(tier string) int {
 		run.Set("distributor_assignments", n)
 		run.Add("evaluations", n)
 	}
+	// Fault leg: a storage failure while one log is updated must not change,
+	// block or wedge anything for the other log (every single fault in the C07
+	// histories, which include a two-log history).
+	runFaults(run, "C12", tier, false)
 	// Concurrent leg: updates of DIFFERENT logs overlapping at storage-operation
 	// granularity (first use / growth of both) - neither may undo the other.
 	c05Concurrent(run, "C12", tier)
